@@ -89,8 +89,75 @@ def run(ctx, report: Report) -> None:
                          f'match_lang tests `{b}` by truthiness in `{unparse(test)[:70]}`; `{b}` is None for "nothing found" but '
                          f'may legitimately be the empty string (lang=""), which this test confuses with "nothing found"')
 
-    # ---- R2 ----------------------------------------------------------------------------------------------
     r2 = report.rule('C13-R2', 'the <meta> memo is transparent', floor=4)
+    meta_memo_rule(ctx, r2)
+
+    # ---- R3 ----------------------------------------------------------------------------------------------
+    r3 = report.rule('C13-R3', 'the walk stays inside the element\'s own document', floor=2)
+    for c in [n for n in walk_no_nested(fn) if isinstance(n, ast.Call)]:
+        nm = call_name(c).split('.')[-1]
+        if nm in ('get_parent', 'get_tag_children', 'get_children', 'get_contents', 'get_tag_descendants', 'get_descendants'):
+            kw = [k for k in c.keywords if k.arg == 'no_iframe']
+            val = unparse(kw[0].value) if kw else None
+            ok = val == 'self.is_html'
+            r3.instance({'call': unparse(c)[:70], 'no_iframe': val}, key=unparse(c))
+            r3.obligation(ok)
+            if not ok:
+                r3.violation(f'match_lang {nm} no_iframe={val}', mmod.where(c),
+                             f'match_lang calls {unparse(c)[:60]} with no_iframe={val}; it must be self.is_html so that the '
+                             f'language of an HTML document never comes from outside an iframe boundary (and XML is unaffected)')
+
+    # ---- R4 ----------------------------------------------------------------------------------------------
+    r4 = report.rule('C13-R4', 'range list tokenised and decoded like its sibling', floor=2)
+    pmod, pl = src.func('css_parser.CSSParser.parse_pseudo_lang')
+    flow = StrFlow(src, pmod, pl, 'CSSParser')
+    for c in [n for n in walk_no_nested(pl) if isinstance(n, ast.Call) and src.resolve_class_ref(pmod, n.func) == 'css_types.SelectorLang']:
+        for p in sorted(flow.prov(c.args[0]), key=lambda p: p.decodes):
+            r4.instance({'sink': 'SelectorLang languages', 'source': p.source, 'decodes': p.decodes}, key=f'{p.source}|{p.decodes}')
+            r4.obligation(p.decodes == 1)
+            if p.decodes != 1:
+                r4.violation(f'parse_pseudo_lang decodes={p.decodes}', pmod.where(c),
+                             f'parse_pseudo_lang hands ranges decoded {p.decodes} time(s) to the IR (pipeline {list(p.steps)})')
+    lang = inv.by_name('token:pseudo_lang')
+    vals = inv.by_name('css_parser.RE_VALUES')
+    s = rx.System()
+    G = s.add('values', lang.pattern, lang.flags, group='values')
+    R = s.add('tiles', f'(?:{vals.pattern})+', vals.flags)
+    s.freeze()
+    w = rx.included(G, R)
+    r4.instance({'group': 'token:pseudo_lang:values', 'tiled_by': '(RE_VALUES)+', 'counterexample': w}, key='tile')
+    r4.obligation(w is None)
+    if w is not None:
+        r4.violation(f'pseudo_lang values not tiled {w!r}', lang.where,
+                     f'the range list {w!r} accepted by the :lang() token cannot be split by RE_VALUES.finditer')
+
+    # ---- R5 ----------------------------------------------------------------------------------------------
+    r5 = report.rule('C13-R5', 'lang vs xml:lang is chosen per ancestor', floor=1)
+    walk_loops = [n for n in walk_no_nested(fn) if isinstance(n, ast.While) and any(
+        isinstance(c, ast.Call) and call_name(c).endswith('iter_attributes') for c in ast.walk(n))]
+    if len(walk_loops) != 1:
+        raise AnalysisError('match_lang: ancestor walk with iter_attributes not found')
+    wl = walk_loops[0]
+    it = [c for c in ast.walk(wl) if isinstance(c, ast.Call) and call_name(c).endswith('iter_attributes')][0]
+    node_var = unparse(it.args[0])
+    ns_calls = [c for c in ast.walk(wl) if isinstance(c, ast.Call) and call_name(c).endswith('has_html_ns')
+                and [unparse(a) for a in c.args] == [node_var]]
+    used = [x for x in ast.walk(wl) if isinstance(x, ast.Name) and x.id == 'has_html_ns' and isinstance(x.ctx, ast.Load)]
+    ok = bool(ns_calls)
+    r5.instance({'inspected_node': node_var, 'namespace_test_inside_walk_on_that_node': ok}, key='per-ancestor')
+    r5.obligation(ok)
+    if not ok:
+        r5.violation('match_lang namespace test hoisted', mmod.where(wl),
+                     f'the ancestor walk inspects the attributes of `{node_var}` but never evaluates has_html_ns({node_var}) inside '
+                     f'the loop: the choice between lang and xml:lang is made by another element when the ancestor chain '
+                     f'crosses namespaces (SVG/MathML inside HTML)')
+
+
+def meta_memo_rule(ctx, r2):
+    """Transparency of the <meta> content-language memo of match_lang (shared with C04)."""
+    src = ctx.src
+    mmod, fn = src.func('css_match.CSSMatch.match_lang')
+    # ---- R2 ----------------------------------------------------------------------------------------------
     cache = 'self.cached_meta_lang'
     appends = [c for c in walk_no_nested(fn) if isinstance(c, ast.Call) and unparse(c.func) == f'{cache}.append']
     if not appends:
@@ -192,62 +259,3 @@ def run(ctx, report: Report) -> None:
                          f'the top of the walk: the <meta> result of one document (e.g. the outer page) is served for another '
                          f'(e.g. an iframe document)')
 
-    # ---- R3 ----------------------------------------------------------------------------------------------
-    r3 = report.rule('C13-R3', 'the walk stays inside the element\'s own document', floor=2)
-    for c in [n for n in walk_no_nested(fn) if isinstance(n, ast.Call)]:
-        nm = call_name(c).split('.')[-1]
-        if nm in ('get_parent', 'get_tag_children', 'get_children', 'get_contents', 'get_tag_descendants', 'get_descendants'):
-            kw = [k for k in c.keywords if k.arg == 'no_iframe']
-            val = unparse(kw[0].value) if kw else None
-            ok = val == 'self.is_html'
-            r3.instance({'call': unparse(c)[:70], 'no_iframe': val}, key=unparse(c))
-            r3.obligation(ok)
-            if not ok:
-                r3.violation(f'match_lang {nm} no_iframe={val}', mmod.where(c),
-                             f'match_lang calls {unparse(c)[:60]} with no_iframe={val}; it must be self.is_html so that the '
-                             f'language of an HTML document never comes from outside an iframe boundary (and XML is unaffected)')
-
-    # ---- R4 ----------------------------------------------------------------------------------------------
-    r4 = report.rule('C13-R4', 'range list tokenised and decoded like its sibling', floor=2)
-    pmod, pl = src.func('css_parser.CSSParser.parse_pseudo_lang')
-    flow = StrFlow(src, pmod, pl, 'CSSParser')
-    for c in [n for n in walk_no_nested(pl) if isinstance(n, ast.Call) and src.resolve_class_ref(pmod, n.func) == 'css_types.SelectorLang']:
-        for p in sorted(flow.prov(c.args[0]), key=lambda p: p.decodes):
-            r4.instance({'sink': 'SelectorLang languages', 'source': p.source, 'decodes': p.decodes}, key=f'{p.source}|{p.decodes}')
-            r4.obligation(p.decodes == 1)
-            if p.decodes != 1:
-                r4.violation(f'parse_pseudo_lang decodes={p.decodes}', pmod.where(c),
-                             f'parse_pseudo_lang hands ranges decoded {p.decodes} time(s) to the IR (pipeline {list(p.steps)})')
-    lang = inv.by_name('token:pseudo_lang')
-    vals = inv.by_name('css_parser.RE_VALUES')
-    s = rx.System()
-    G = s.add('values', lang.pattern, lang.flags, group='values')
-    R = s.add('tiles', f'(?:{vals.pattern})+', vals.flags)
-    s.freeze()
-    w = rx.included(G, R)
-    r4.instance({'group': 'token:pseudo_lang:values', 'tiled_by': '(RE_VALUES)+', 'counterexample': w}, key='tile')
-    r4.obligation(w is None)
-    if w is not None:
-        r4.violation(f'pseudo_lang values not tiled {w!r}', lang.where,
-                     f'the range list {w!r} accepted by the :lang() token cannot be split by RE_VALUES.finditer')
-
-    # ---- R5 ----------------------------------------------------------------------------------------------
-    r5 = report.rule('C13-R5', 'lang vs xml:lang is chosen per ancestor', floor=1)
-    walk_loops = [n for n in walk_no_nested(fn) if isinstance(n, ast.While) and any(
-        isinstance(c, ast.Call) and call_name(c).endswith('iter_attributes') for c in ast.walk(n))]
-    if len(walk_loops) != 1:
-        raise AnalysisError('match_lang: ancestor walk with iter_attributes not found')
-    wl = walk_loops[0]
-    it = [c for c in ast.walk(wl) if isinstance(c, ast.Call) and call_name(c).endswith('iter_attributes')][0]
-    node_var = unparse(it.args[0])
-    ns_calls = [c for c in ast.walk(wl) if isinstance(c, ast.Call) and call_name(c).endswith('has_html_ns')
-                and [unparse(a) for a in c.args] == [node_var]]
-    used = [x for x in ast.walk(wl) if isinstance(x, ast.Name) and x.id == 'has_html_ns' and isinstance(x.ctx, ast.Load)]
-    ok = bool(ns_calls)
-    r5.instance({'inspected_node': node_var, 'namespace_test_inside_walk_on_that_node': ok}, key='per-ancestor')
-    r5.obligation(ok)
-    if not ok:
-        r5.violation('match_lang namespace test hoisted', mmod.where(wl),
-                     f'the ancestor walk inspects the attributes of `{node_var}` but never evaluates has_html_ns({node_var}) inside '
-                     f'the loop: the choice between lang and xml:lang is made by another element when the ancestor chain '
-                     f'crosses namespaces (SVG/MathML inside HTML)')
